@@ -6,4 +6,4 @@ CLAIM = ("Headers failing their own integrity data are never returned: for arbit
 ASSUMPTIONS = ["decomposed along lha_file_header.c's own functions (level decoders, extended-header walk, post-processing tail)",
                "the property's 'all 255 substitutions at every position' is subsumed: the header bytes are fully symbolic"]
 HARNESSES = [l01(40), l23(2), l23(3), l1ext(13), walk(16), tail(3)] + ext_all() + [
-    l01(64, timeout=1800, tier="thorough"), l1ext(24, timeout=1800, tier="thorough"), walk(24, timeout=1800, tier="thorough")]
+    l01(64, timeout=1800, tier="thorough"), l1ext(17, timeout=2400, tier="thorough"), walk(24, timeout=1800, tier="thorough")]
